@@ -114,8 +114,8 @@ type tagEval struct {
 	descendUnknown bool
 	// assertKnown: a type assertion on a known string constant is decided (string: yes, other concrete types: no)
 	assertKnown bool
-	globals        map[*ssa.Global]map[string]constant.Value // string-keyed constant maps built in init
-	tables         map[*ssa.Global]map[int64]*ssa.Function   // package-level arrays/maps of functions, by constant index
+	globals     map[*ssa.Global]map[string]constant.Value // string-keyed constant maps built in init
+	tables      map[*ssa.Global]map[int64]*ssa.Function   // package-level arrays/maps of functions, by constant index
 	// heap of abstract struct objects (field index -> value); shared by all frames, so a
 	// fork on an undecided condition while it is in use makes the results unreliable
 	// lookupHook answers a map lookup (value, found); mapUpdateObs observes m[k] = v; makeMapHook names a fresh map
@@ -731,7 +731,9 @@ func (te *tagEval) binop(op token.Token, a, b aval) (aval, bool) {
 	// a known list, or a known constant held in an interface, is not nil
 	if op == token.EQL || op == token.NEQ {
 		isNil := func(x aval) bool { return (x.K == aConst && x.C == nil) || (x.K == aTag && x.Tag == nil) }
-		nonNil := func(x aval) bool { return x.K == aList || (x.K == aConst && x.C != nil && x.C.Kind() == constant.String) }
+		nonNil := func(x aval) bool {
+			return x.K == aList || (x.K == aConst && x.C != nil && x.C.Kind() == constant.String)
+		}
 		if (nonNil(a) && isNil(b)) || (nonNil(b) && isNil(a)) {
 			return aval{K: aConst, C: constant.MakeBool(op == token.NEQ)}, true
 		}
